@@ -10,24 +10,26 @@
 (* entity rows, an unknown column, and save_to cells: a set of              *)
 (* (site, property-name class) with site in                                 *)
 (*   "top" (question at top level), "group" (question in a group),          *)
-(*   "repeat" (question in a repeat), "grouprow" (on a begin-group row).    *)
+(*   "repeat" (question in a repeat), "grouprow" (on a begin-group row),    *)
+(*   "group_in_repeat" (question in a group that is inside a repeat).       *)
+(* `nsset`: the settings sheet also declares custom namespaces.             *)
 (***************************************************************************)
 EXTENDS Naturals, Sequences, FiniteSets, TLC
 
-Sites == {"top", "group", "repeat", "grouprow"}
+Sites == {"top", "group", "repeat", "grouprow", "group_in_repeat"}
 NameClasses == {"valid", "name", "Label", "reserved_prefix", "digit_first", "space"}
 DatasetClasses == {"valid", "reserved_prefix", "period", "digit_first", "space"}
 
 VARIABLES c, phase
 evars == <<c, phase>>
 Base == [id |-> FALSE, cr |-> FALSE, up |-> FALSE, lab |-> TRUE, refs |-> FALSE, dataset |-> "valid", nrows |-> 1,
-         extracol |-> FALSE, sheet |-> TRUE, saveto |-> {}]
+         extracol |-> FALSE, sheet |-> TRUE, saveto |-> {}, nsset |-> FALSE]
 \* every one of the 16 presence combinations x expression shape x every set of save_to sites (valid names);
 \* then single departures: a bad dataset name, a bad property name at one site, two entity rows, an unknown column,
 \* save_to without an entities sheet
 EInit == /\ phase = "pick"
-         /\ \E id, cr, up, lab, refs \in BOOLEAN : \E S \in SUBSET Sites :
-               c = [Base EXCEPT !.id = id, !.cr = cr, !.up = up, !.lab = lab, !.refs = refs,
+         /\ \E id, cr, up, lab, refs, ns \in BOOLEAN : \E S \in SUBSET Sites :
+               c = [Base EXCEPT !.id = id, !.cr = cr, !.up = up, !.lab = lab, !.refs = refs, !.nsset = ns,
                                 !.saveto = {<<s, "valid">> : s \in S}]
 Depart ==
   /\ phase = "pick" /\ phase' = "done"
@@ -44,7 +46,7 @@ ESpec == EInit /\ [][ENext]_evars
 TableReject(x) == \/ (x.up /\ ~x.id)            \* 0 0 1 and 0 1 1: need an id to update
                   \/ (x.id /\ x.cr /\ ~x.up)    \* 1 1 0: id only acceptable when updating
                   \/ (~x.id /\ ~x.lab)          \* creating needs a label
-SaveToReject(x) == \/ \E s \in x.saveto : s[1] \in {"repeat", "grouprow"} \/ s[2] # "valid"
+SaveToReject(x) == \/ \E s \in x.saveto : s[1] \in {"repeat", "grouprow", "group_in_repeat"} \/ s[2] # "valid"
                    \/ (~x.sheet /\ x.saveto # {})
 Rejected(x) == IF ~x.sheet THEN x.saveto # {}
                ELSE TableReject(x) \/ SaveToReject(x) \/ x.dataset # "valid" \/ x.nrows > 1 \/ x.extracol
